@@ -1,4 +1,6 @@
--- stub: component `eq` not built yet
+import Driver.Eq
+open Driver
+
 def main : IO UInt32 := do
-  IO.eprintln "driver-eq: not implemented"
-  return 2
+  runComponent () Eq.step
+  return 0
